@@ -112,6 +112,16 @@ pub async fn spawn_node(node_id: u64, dir: PathBuf, load: Load) -> ServerHandle 
     spawn(opts(node_id), loader(dir, load)).await.expect("spawn node")
 }
 
+/// a node whose discovery loop sleeps for an hour after its first pass: the harness decides the membership view
+pub async fn spawn_node_manual_membership(node_id: u64, dir: PathBuf) -> ServerHandle {
+    std::env::remove_var("QE_ADVERTISE_ADDR");
+    std::env::remove_var("QE_NODE_ID");
+    std::env::remove_var("POD_IP");
+    let mut o = opts(node_id);
+    o.discovery_interval = Duration::from_secs(3600);
+    spawn(o, loader(dir, Load::Ok)).await.expect("spawn node")
+}
+
 pub async fn wait_until(mut f: impl FnMut() -> bool, secs: u64) -> bool {
     let deadline = Instant::now() + Duration::from_secs(secs);
     while Instant::now() < deadline {
